@@ -133,6 +133,22 @@ class Unsupported(Exception):
 
 # ------------------------------------------------------------------------------------------------------------ types
 STR, INT, BOOL, NONE, UNK = ("str",), ("int",), ("bool",), ("none",), ("unk",)
+UNUSED = ("unused",)      # a parameter the function never reads (only inside an unevaluated `raise` message): it is
+                          # not a parameter of the Lean function; call sites evaluate the argument and drop it
+
+
+class Opaque:
+    """A callee that is NOT translated: it becomes an explicit parameter `name : T1 → … → R` (or `→ Except PyErr R` when
+    `monadic`) of every translated function that calls it, placed before the Python parameters; the equivalence theorem
+    instantiates it (e.g. with the model's cast).  `obj` is the live function object the call must resolve to, `params`
+    its Python parameter names with their types (for keyword arguments and coercions)."""
+
+    def __init__(self, obj, name, params, ret, monadic=True):
+        self.obj, self.name, self.params, self.ret, self.monadic = obj, name, list(params), ret, monadic
+
+    def lean_type(self):
+        r = lean_type(self.ret, True)
+        return " → ".join([lean_type(t, True) for _, t in self.params] + [("Except PyErr " + r) if self.monadic else r])
 
 
 def Opt(t):
@@ -247,8 +263,14 @@ def lean_const(v):
 
 
 class Spec:
-    def __init__(self, fn, name, params, ret, fixed=None, small_ints=False):
-        self.fn, self.name, self.params, self.ret, self.fixed = fn, name, list(params), ret, dict(fixed or {})
+    def __init__(self, fn, name, params, ret, fixed=None, small_ints=False, opaque=(), assume=None, set_order=False):
+        self.fn, self.name, self.ret, self.fixed = fn, name, ret, dict(fixed or {})
+        self.unused = [p for p, t in params if t == UNUSED]
+        self.params = [(p, t) for p, t in params if t != UNUSED]
+        self.opaque = list(opaque)          # Opaque callees (explicit function parameters)
+        self.assume = dict(assume or {})    # {param: True/False}: the truth value of a container parameter in this
+                                            # call shape (`if fields:` is decided, the dead branch is not translated)
+        self.set_order = set_order          # the function takes `ord` (the unknown iteration order of sets)
         self.small_ints = small_ints     # hint for the selftest only: ints stay in the C range (array('i', …))
         self.monadic = None       # set by the translation
         self.fuel = False         # set by the translation: the Lean function takes `fuel : Nat` first
@@ -289,6 +311,7 @@ class _Fn:
         self.structs = structs or {}              # python class -> Struct type (NamedTuple/dataclass of the Specs)
         self.loopkinds = []                       # innermost last: ("for", None) / ("while", flag name)
         self.pending = []                         # declarations of empty containers whose type is inferred later
+        self.ord_sites = 0                        # order-sensitive set iterations translated so far (`set_order`)
         self.globals = getattr(spec.fn, "__globals__", {})
         src = textwrap.dedent(inspect.getsource(spec.fn))
         tree = ast.parse(src)
@@ -349,13 +372,14 @@ class _Fn:
         pynames = [x.arg for x in a.args]
         declared = [p for p, _ in self.spec.params]
         for p in pynames:
-            if p not in declared and p not in self.spec.fixed:
+            if p not in declared and p not in self.spec.fixed and p not in self.spec.unused:
                 raise Unsupported("%s: parameter `%s` has neither a type nor a fixed value" % (self.spec.name, p))
-        for p in declared + list(self.spec.fixed):
+        for p in declared + list(self.spec.fixed) + list(self.spec.assume):
             if p not in pynames:
                 raise Unsupported("%s: no parameter `%s` in the source" % (self.spec.name, p))
         self.nassign = {}
         self.mutated = set()
+        self.nested_mutated = set()
         self.rebound = set()
         self.recursive = False
         uses_while = False
@@ -378,6 +402,10 @@ class _Fn:
                   and isinstance(n.func.value, ast.Name)
                   and dict(self.spec.params).get(n.func.value.id, UNK)[0] not in ("struct", "str")):
                 mutate(n.func.value.id)
+            elif (isinstance(n, ast.Call) and isinstance(n.func, ast.Attribute) and n.func.attr in _MUTATORS
+                  and isinstance(n.func.value, ast.Subscript) and isinstance(n.func.value.value, ast.Name)):
+                mutate(n.func.value.value.id)
+                self.nested_mutated.add(n.func.value.value.id)
             elif isinstance(n, ast.While):
                 uses_while = True
             elif isinstance(n, (ast.Lambda, ast.FunctionDef, ast.ClassDef, ast.AsyncFunctionDef)) and n is not self.node:
@@ -498,6 +526,8 @@ class _Fn:
         """True/False if the test is decided by the fixed parameters alone, else None"""
         if isinstance(node, ast.Name) and node.id in self.spec.fixed and self.lookup(node.id) is None:
             return bool(self.spec.fixed[node.id])
+        if isinstance(node, ast.Name) and node.id in self.spec.assume and node.id not in self.nassign:
+            return bool(self.spec.assume[node.id])
         if isinstance(node, ast.UnaryOp) and isinstance(node.op, ast.Not):
             r = self.static_test(node.operand)
             return None if r is None else not r
@@ -951,7 +981,7 @@ class _Fn:
             conds.append(ct)
         pe, e, te = self.expr(node.elt)
         self.pop()
-        if _has_unk(te):
+        if _has_unk(te) and not (te[0] == "tuple" and not _has_unk(te[1]) and te[-1][0] in ("list", "set", "dict")):
             self.fail(node, "comprehension element of unknown type")
         if conds:
             xs = "(List.filter (fun %s => %s) %s)" % (pat, " && ".join(conds), xs)
@@ -990,7 +1020,11 @@ class _Fn:
             return pre, x, t[1]
         if t[0] == "set" and not _has_unk(t):
             if not unordered_ok:
-                self.fail(node, "iteration over a set where the result may depend on the (arbitrary) order")
+                if not self.spec.set_order:
+                    self.fail(node, "iteration over a set where the result may depend on the (arbitrary) order")
+                # the unknown order: `ord <site> s` — theorems quantify over every `ord` that permutes its argument
+                self.ord_sites += 1
+                return pre, "(ord %d %s)" % (len(self.module_specs) * 1000 + self.ord_sites, x), t[1]
             return pre, x, t[1]
         if t[0] in ("list", "set") and unordered_ok:
             return pre, "[]", UNK
@@ -1023,6 +1057,9 @@ class _Fn:
             obj = self.resolve_global(f.id)
         except KeyError:
             self.fail(node, "unknown function")
+        for oq in self.spec.opaque:
+            if oq.obj is obj:
+                return self.opaque_call(node, oq)
         if obj is self.spec.fn:
             return self.spec_call(node, self.spec, recursive=True)
         if id(obj) in self.module_specs and self.module_specs[id(obj)].fn is obj:
@@ -1048,6 +1085,35 @@ class _Fn:
                 self.fail(node, "array() of non-ints")
             return pre, x, Lst(INT)
         self.fail(node, "call of a function that is neither a supported builtin nor translated earlier in this module")
+
+    def opaque_call(self, node, oq):
+        """a call of an Opaque callee: its explicit function parameter applied to the arguments (evaluated in the
+        order written); defaults of the Python callee must be constants"""
+        names = [n for n, _ in oq.params]
+        given = dict(zip(names, node.args))
+        if len(node.args) > len(names):
+            self.fail(node, "too many arguments")
+        for k in node.keywords:
+            if k.arg in given or k.arg not in names:
+                self.fail(node, "keyword argument")
+            given[k.arg] = k.value
+        pre, vals = [], {}
+        for n in sorted(given, key=lambda n: (given[n].lineno, given[n].col_offset)):
+            p, x, t = self.expr(given[n])
+            pre += p
+            vals[n] = self.coerce(given[n], x, t, dict(oq.params)[n])
+        sig = inspect.signature(oq.obj).parameters
+        for n, t in oq.params:
+            if n not in vals:
+                d = sig[n].default if n in sig else inspect.Parameter.empty
+                if d is inspect.Parameter.empty:
+                    self.fail(node, "missing argument `%s`" % n)
+                x, tx = lean_const(d)
+                vals[n] = self.coerce(node, x, tx, t)
+        call = " ".join([oq.name] + [vals[n] for n in names])
+        if oq.monadic:
+            return pre, self.bind(pre, call, oq.ret), oq.ret
+        return pre, "(" + call + ")", oq.ret
 
     def struct_new(self, node, cls):
         """`Cls(a, b, …)` for a NamedTuple/dataclass declared as Struct in the Specs: the anonymous constructor"""
@@ -1116,6 +1182,10 @@ class _Fn:
         for n in order:
             if n in callee.fixed:
                 continue
+            if n in callee.unused:
+                p, x, t = self.expr(given[n], alias_ok=True)     # evaluated (it may raise), then dropped
+                pre += p
+                continue
             # a callee cannot keep an argument; it can only hand it back in its result
             no_alias = not _contains_kind(callee.ret, ("list", "set", "dict", "struct")) or getattr(callee, "ret_fresh", False)
             p, x, t = self.expr(given[n], alias_ok=n in outs or no_alias)
@@ -1132,7 +1202,17 @@ class _Fn:
                 x, tx = lean_const(d)
                 vals[n] = self.coerce(node, x, tx, t)
             terms.append(vals[n])
-        call = " ".join([callee.name] + (["fuel"] if callee.fuel else []) + terms)
+        extra = []
+        if callee.set_order:
+            if not self.spec.set_order:
+                self.fail(node, "the callee iterates sets in an unknown order (`set_order`), the caller's Spec does not")
+            extra.append("ord")
+        for oq in callee.opaque:
+            mine = [o for o in self.spec.opaque if o.obj is oq.obj]
+            if not mine:
+                self.fail(node, "the callee's opaque callee `%s` is not declared for this function" % oq.name)
+            extra.append(mine[0].name)
+        call = " ".join([callee.name] + (["fuel"] if callee.fuel else []) + extra + terms)
         rt = callee.lean_ret()
         if callee.monadic or recursive:
             r = self.bind(pre, call, rt)
@@ -1520,10 +1600,10 @@ class _Fn:
         if _has_unk(t):
             # an empty display: its element type is fixed by the first add/append/membership test (`retype`); the
             # declaration is completed at the end of the translation
-            if term != "[]" or t[0] not in ("list", "set", "dict"):
+            if t[0] not in ("list", "set", "dict"):
                 self.fail(node, "cannot infer the type of `%s` (annotate it: `%s: List[T] = []`)" % (name, name))
             self.pending.append((name, self.scopes[-1]))
-            return ["let %s%s : @@T%d@@ := []" % (mut, self.ident(name), len(self.pending) - 1)]
+            return ["let %s%s : @@T%d@@ := %s" % (mut, self.ident(name), len(self.pending) - 1, term)]
         return ["let %s%s : %s := %s" % (mut, self.ident(name), lean_type(t), term)]
 
     def s_Assign(self, node):
@@ -1556,6 +1636,17 @@ class _Fn:
         if isinstance(target, ast.Name) and target.id in self.mutated and t[0] in ("list", "set", "dict") \
                 and not self.is_fresh(value):
             self.fail(node, "a mutated container is bound to a value that may be shared with another name")
+        if isinstance(target, ast.Name) and target.id in self.nested_mutated:
+            # the containers INSIDE it are changed in place (`d[k].add(e)`): each must be a new object of its own
+            if isinstance(value, ast.DictComp):
+                inner = [value.value]
+            elif isinstance(value, ast.Dict):
+                inner = list(value.values)
+            else:
+                inner = None
+            if inner is None or not all(self.is_fresh(v) for v in inner):
+                self.fail(node, "a dict whose elements are changed in place must be built from new containers "
+                                "(`{k: set() for k in …}`)")
         if isinstance(target, ast.Name):
             if ann is not None and self.lookup(target.id) is None:
                 x, t = self.coerce(node, x, t, ann), ann
@@ -1662,7 +1753,11 @@ class _Fn:
             if sp is not None and sp.fn is obj:
                 # a call for its effect on the mutated arguments (the result, if any, is dropped)
                 pre, x, t = self.spec_call(v, sp, recursive=sp is self.spec, in_stmt=True)
-                return pre or ["pure ()"]
+                return pre + ["pure ()"]
+            for oq in self.spec.opaque:
+                if oq.obj is obj:          # a bare call of an opaque callee: bound, result dropped
+                    pre, x, t = self.opaque_call(v, oq)
+                    return pre + ["pure ()"]
         if (isinstance(v, ast.Call) and isinstance(v.func, ast.Attribute) and isinstance(v.func.value, ast.Name)
                 and v.func.attr in ("append", "extend") and len(v.args) == 1 and not v.keywords):
             name = v.func.value.id
@@ -1674,7 +1769,9 @@ class _Fn:
                 if _has_unk(tl):
                     tl = Lst(t)
                     self.retype(name, tl)
-                if _contains_kind(t, ("list", "set", "dict")) and not self.is_fresh(v.args[0]):
+                if _contains_kind(t, ("list", "set", "dict")) and not self.is_fresh(v.args[0]) and not (
+                        isinstance(v.args[0], ast.Name) and v.args[0].id not in self.mutated
+                        and v.args[0].id not in dict(self.spec.params) and name not in self.nested_mutated):
                     self.fail(node, "a container that may be shared is appended to a list")
                 x = "[%s]" % self.coerce(node, x, t, tl[1])
             else:
@@ -1684,6 +1781,30 @@ class _Fn:
                     self.retype(name, tl)
                 x = self.coerce(node, x, Lst(t), tl)
             return pre + ["%s := %s ++ %s" % (self.ident(name), self.ident(name), x)]
+        if (isinstance(v, ast.Call) and isinstance(v.func, ast.Attribute) and isinstance(v.func.value, ast.Subscript)
+                and isinstance(v.func.value.value, ast.Name) and not isinstance(v.func.value.slice, ast.Slice)
+                and v.func.attr in ("add", "append") and len(v.args) == 1 and not v.keywords):
+            # `d[k].add(e)` / `d[k].append(e)`: the container stored under k is replaced by the extended one (KeyError
+            # when k is missing).  Sound because every container stored in `d` is a NEW one (checked where it is
+            # stored) and is never handed out (reads of d[k] only feed iteration / `in` / len / a callee that cannot
+            # keep it)
+            name = v.func.value.value.id
+            tl = self.lookup(name)
+            if tl is None or tl[0] != "dict" or name in self.iterating or name in dict(self.spec.params) \
+                    or tl[2][0] != {"add": "set", "append": "list"}[v.func.attr]:
+                self.fail(node, "in-place change of an element of something that is not a local dict of sets/lists")
+            pk, k, tk = self.expr(v.func.value.slice)
+            pe, e, te = self.expr(v.args[0])
+            if _has_unk(tl[2]):
+                tl = Dict(tl[1], (tl[2][0], te))
+                self.retype(name, tl)
+            if _contains_kind(te, ("list", "set", "dict")):
+                self.fail(node, "a container stored inside a container of a dict")
+            self.effect = True
+            n = self.ident(name)
+            f = "pySetAdd" if v.func.attr == "add" else "pyListAppend"
+            return pk + pe + ["%s ← pyDictModify %s %s (fun c_ => %s c_ %s)"
+                              % (n, n, self.coerce(node, k, tk, tl[1]), f, self.coerce(node, e, te, tl[2][1]))]
         if (isinstance(v, ast.Call) and isinstance(v.func, ast.Attribute) and isinstance(v.func.value, ast.Name)
                 and v.func.attr in ("add", "update") and len(v.args) == 1 and not v.keywords):
             name = v.func.value.id
@@ -1890,6 +2011,7 @@ class _Fn:
         if single is None:
             self.scopes = [dict(self.scopes[0])]
             self.effect, self.tmp, self.dead, self.pending = bool(self.spec.fuel), 0, set(), []
+            self.ord_sites = 0
             lines = head + self.block(body, scope=False)
             if not self.terminates(body):
                 if self.spec.ret == NONE:
@@ -1909,6 +2031,8 @@ class _Fn:
         self.spec.monadic = self.effect
         ret = lean_type(self.spec.lean_ret(), paren=self.effect)
         params = (" (fuel : Nat)" if self.spec.fuel else "") \
+            + (" (ord : Nat → {α : Type} → List α → List α)" if self.spec.set_order else "") \
+            + "".join(" (%s : %s)" % (o.name, o.lean_type()) for o in self.spec.opaque) \
             + "".join(" (%s : %s)" % (self.ident(p), lean_type(t)) for p, t in self.spec.params)
         mod = getattr(self.spec.fn, "__module__", "?")
         qual = getattr(self.spec.fn, "__qualname__", self.spec.name)
